@@ -945,6 +945,10 @@ func mutatedArgs(name string, nargs int, invoke bool) []int {
 		return []int{0}
 	case strings.HasPrefix(name, "fmt.Fprintf"), strings.HasPrefix(name, "fmt.Fprint"):
 		return []int{0}
+	case strings.HasPrefix(name, "(*strings.Replacer).WriteString"), strings.HasPrefix(name, "io.WriteString"):
+		return []int{1} // (receiver,) writer, text: writes to the writer only
+	case strings.HasPrefix(name, "(*strings.Replacer).Replace"):
+		return nil
 	case strings.HasPrefix(name, "slices.Sort"), strings.HasPrefix(name, "sort."), strings.HasPrefix(name, "slices.Reverse"):
 		return []int{0}
 	case strings.HasPrefix(name, "maps.Copy"):
